@@ -35,6 +35,6 @@ def jobs(tier, seed):
     for (a, b) in sh:
         js.append(Job("2d.fill.%dx%d" % (a, b), "2d_fill_matrix", "c16_2d.c", ["of_fill_2D_pchk_matrix", "of_mod2sparse_insert", "of_mod2sparse_find", "of_mod2sparse_allocate"],
                       repo_sources=[SP, CP, MEM], defines={"OFV_T": 1, "OFV_A": a, "OFV_B": b, "OPENFEC_VERIF_SPARSE_BLOCK": 64},
-                      unwind=70, timeout=1500, mem_gb=10, status="proved", object_bits=10,
+                      unwind=70, timeout=1500, mem_gb=10, status="proved" if tier != "quick" else "bounded", object_bits=10,
                       bound="shape (%d,%d) is a harness constant; the family of admissible shapes is finite (%d shapes, all run in the thorough tier)" % (a, b, len(shapes()))))
     return js
